@@ -1,4 +1,4 @@
-CONSTANTS Scope = "table" TableLo = 1 NTable = 7 MaxLen = 4 RunCalls = TRUE Transports = {"grpc", "rest"} FreeJitter = FALSE Mutant = "none"
+CONSTANTS Scope = "table" TableLo = 1 NTable = 7 MaxLen = 4 RunCalls = TRUE Transports = {"grpc", "grpc_asyncio", "rest"} FreeJitter = FALSE Mutant = "none"
 SPECIFICATION Spec
 INVARIANT Inv_Resolve
 INVARIANT Inv_Loaded
